@@ -25,7 +25,7 @@ SCAL = [0.0, 1.0, -1.0, 2.5, -0.3, 1e3]
 
 
 def budget(tier):
-    return {"examples": 2400 if tier == "quick" else 50000, "shards": 16, "shrink": 200 if tier == "quick" else 1500}
+    return {"examples": 6000 if tier == "quick" else 80000, "shards": 16, "shrink": 200 if tier == "quick" else 1500}
 
 
 def strategy(tier):
